@@ -146,6 +146,7 @@ Proof.
   - (* OEmplace *) cbn [spec_run spec_step]. rewrite sarg_vals_dealias, map_length. reflexivity.
   - (* OInsHint *) cbn [spec_run spec_step]. rewrite sarg_key_dealias, sarg_val_dealias. reflexivity.
   - (* OInsVia *) cbn [spec_run spec_step]. rewrite sarg_key_dealias, sarg_val_dealias. reflexivity.
+  - (* OInsTie *) cbn [spec_run spec_step]. rewrite sarg_key_dealias, sarg_val_dealias. reflexivity.
 Qed.
 
 (* ---- histories ---- *)
